@@ -136,6 +136,35 @@ Proof.
   rewrite <- (sub_qual r s z Wr Ws Hs (chain_incl _ _ _ Hz)), <- (sub_qual r s p Wr Ws Hs Hp). exact Hq.
 Qed.
 
+(* the finalized filter hides nothing that the quality window would show: at an honest proposal, every own block whose
+   quality is inside the `headQuality-1` window is at or above the proposer's finalized number *)
+Definition votes_visible_at (nd : node) : bool :=
+  let r := n_repo nd in let e := n_eng nd in
+  forallb (fun x => negb (b_signer x =? e_master e) || negb (qual c r (best_blk nd) - 1 <=? qual c r x) ||
+                    (idnum (e_fin e) <=? b_num x)) r.
+
+Fixpoint votes_visible_b (w : list node) (evs : list event) : bool :=
+  match evs with
+  | [] => true
+  | ev :: t =>
+      match ev with
+      | EPropose i b => match nth_error w i with Some nd => votes_visible_at nd | None => true end
+      | _ => true
+      end && votes_visible_b (step_plain true c w ev) t
+  end.
+
+Lemma votes_visible_app pre : forall w ev post, votes_visible_b w (pre ++ ev :: post) = true ->
+  match ev with
+  | EPropose i b => match nth_error (world_after c w pre) i with Some nd => votes_visible_at nd = true | None => True end
+  | _ => True
+  end.
+Proof.
+  induction pre as [|e0 t IH]; intros w ev post H.
+  - cbn [app votes_visible_b world_after fold_left] in *. apply andb_prop in H. destruct H as [H _].
+    destruct ev as [i b|i b|i]; try exact I. destruct (nth_error w i); [exact H | exact I].
+  - cbn [app votes_visible_b] in H. apply andb_prop in H. destruct H as [_ H]. cbn [world_after fold_left]. exact (IH _ ev post H).
+Qed.
+
 Section LinkRun.
 Variable g : blk.
 Hypothesis Hg : b_num g = 0.
@@ -183,6 +212,39 @@ Proof.
   pose proof (chain_incl _ _ _ (proj1 Hspec)) as Hrbr.
   unfold comparable. rewrite <- (sub_has_block _ tree cpx _ Hwfr Hwft Hsubt Hcr), <- (sub_has_block _ tree rb _ Hwfr Hwft Hsubt Hrbr).
   exact Hcmp.
+Qed.
+(* the same with the finalized filter discharged by the visibility premise *)
+Theorem com_vote_link_run_visible pre i b post nd :
+  let evs := pre ++ EPropose i b :: post in
+  let tree := seen_after [g] evs in
+  valid_run_b true c byz W0 [g] evs = true -> known tree (b_parent g) = false ->
+  b_com b = true -> nth_error (world_after c W0 pre) i = Some nd -> votes_visible_at nd = true ->
+  wf_repo tree /\
+  exists p rb, In p tree /\ b_id p = b_parent b /\ In b tree /\ recent_spec tree p rb /\
+    forall x, In x (seen_after [g] pre) -> b_signer x = b_signer b -> qual c tree p - 1 <= qual c tree x ->
+      exists cpx, cp_of c tree x = Some cpx /\ comparable tree cpx rb.
+Proof.
+  cbv zeta. intros Hv Hroot Hcom Hn Hvis.
+  destruct (com_vote_link_run pre i b post nd Hv Hroot Hcom Hn) as [Hwft [Hs [p [rb [Hp [Hpid [Hb [Hspec Hall]]]]]]]].
+  split; [exact Hwft|]. exists p, rb. repeat (split; [assumption|]).
+  intros x Hx Hsx Hqx. apply (Hall x Hx Hsx); [|exact Hqx].
+  (* x is stored at the proposer's node and the premise applies there *)
+  destruct (world_prefix c HL g Hg byz masters Hdisj Hnd pre (EPropose i b :: post) Hv Hroot) as [Hw [Hv2 Hincl]].
+  destruct (wg_nodes c g byz masters _ _ Hw i nd Hn) as [Hgood [Hsub [_ Hown]]].
+  pose proof (ng_inv c nd Hgood) as Hi. pose proof (inv_wf c _ Hi) as Hwfr.
+  assert (Hsubt : incl (n_repo nd) (seen_after [g] (pre ++ EPropose i b :: post))) by (intros y Hy; apply Hincl; exact (Hsub y Hy)).
+  destruct (best_in c nd Hi) as [Hbin Hbid].
+  assert (Hxr : In x (n_repo nd)) by (apply Hown; [exact Hx | rewrite Hsx; exact Hs]).
+  unfold votes_visible_at in Hvis. cbv zeta in Hvis. rewrite forallb_forall in Hvis. specialize (Hvis x Hxr).
+  assert (p = best_blk nd).
+  { apply (stored_unique _ p (best_blk nd) Hwft Hp (Hsubt _ Hbin)). rewrite Hpid, Hbid.
+    rewrite valid_run_cons in Hv2. apply andb_prop in Hv2. destruct Hv2 as [Hok _]. cbn [ev_check fst] in Hok. rewrite Hn in Hok.
+    apply andb_prop in Hok. destruct Hok as [_ Hhon]. destruct (honest_ok_facts c nd b Hhon) as [_ [Hpar _]]. exact Hpar. }
+  subst p.
+  rewrite <- (sub_qual _ _ _ Hwfr Hwft Hsubt Hbin), <- (sub_qual _ _ _ Hwfr Hwft Hsubt Hxr) in Hqx.
+  assert (A : (b_signer x =? e_master (n_eng nd)) = true) by (apply N.eqb_eq; rewrite Hsx; exact Hs).
+  assert (B : (qual c (n_repo nd) (best_blk nd) - 1 <=? qual c (n_repo nd) x) = true) by (apply N.leb_le; exact Hqx).
+  rewrite A, B in Hvis. cbn in Hvis. apply N.leb_le. exact Hvis.
 Qed.
 End LinkRun.
 End Link.
